@@ -62,6 +62,14 @@ CHECKS = {
    tech="TLA+ state machine JtSwitch (switch updates with every spelling, decoration at any time, no_type_check above/below, calls) explored by TLC with DisabledIsPlain; all behaviours of 4 actions replayed in-process; JtCallShape rows with the switch on compared with the undecorated function by TLC; every spelling also via JAXTYPING_DISABLE in sub-processes",
    text="All 83k sequences of 4 actions over {config.update with 12 spellings incl. invalid ones, decorate plain / no_type_check above / below, call well- / ill-typed} must produce the outcomes of the specification (ValueError for invalid spellings without changing the switch, no TypeCheckError while disabled or under no_type_check, checking restored after re-enabling without re-decoration); with the switch on, every signature x call shape row, ill-typed ones included, must equal the undecorated function in outcome and body runs; the environment variable is exercised in sub-processes with 13 spellings.",
    note="Hooked-module variant is not replayed separately (hooked functions are ordinary jaxtyped functions; C11 covers instrumentation)."),
+ "C11": dict(cat="model_checking", sec="5 C11",
+   tech="TLA+ state machine JtHookScope (module names as segment sequences, metaPath with most recent hook first, first-time imports with parents and nested imports; Sticky / NoHookPlain / PrefixIsNotBeneath) explored by TLC; behaviours replayed in-process on a generated package tree with spy typecheckers",
+   text="All sequences of 3 actions, a seeded sample of 6000 of the 298k sequences of 4 actions (all in the thorough tier) and simulated sequences of 8 actions over install (7 name sets x checkers A, B, None), uninstall and import (8 modules: nested packages, siblings sharing string prefixes, modules importing each other) are executed for real; for every module an import loads, who instrumented it (recorded by the spy checkers), whether ill-typed calls are rejected and whether methods are wrapped must equal the specification.",
+   note="API route only; the pytest option and the IPython magic reuse the same finder / transformer and are not driven separately."),
+ "C18": dict(cat="model_checking", sec="5 C18",
+   tech="TLA+ state machine JtHookCache (persistent source versions and per-tag caches, runs with hooked set / checker / nested imports / write-suppression / a non-compiling hooked module, edits) with invariants Fresh and CacheTagged proved for the get_code patch scope and refuted by TLC for three broken variants; TLC-simulated histories replayed as sequences of fresh interpreter processes over one directory with real __pycache__ files",
+   text="Each replayed history (2 runs over modules A->B, optional source edit, every hooked subset, two checkers or none, import orders incl. nested imports, runs that do not write bytecode, imports of a hooked module that fails to compile) runs every run in its own interpreter; each run reports per module the source version and the instrumentation it actually executed with, which must equal what the specification's Fresh invariant demands.",
+   note="300 histories in the quick tier (seeded sample biased to configuration changes); 3 modules / 3 runs in the thorough tier. mtime-based pyc invalidation."),
 }
 NOT_YET = {}
 
